@@ -24,7 +24,8 @@ class FnCtx(object):
       cls._cache[k] = FnCtx(fn)
     return cls._cache[k]
 
-  def expand_reads(self, expr, at=None, depth=0, seen=None, owners=('self',)):
+  def expand_reads(self, expr, at=None, depth=0, seen=None, owners=('self',),
+                   keep_locals=False):
     """Names / owner.attrs the value of expr may derive from, following local
     definitions that reach the use."""
     if at is None:
@@ -42,6 +43,8 @@ class FnCtx(object):
       if not defs:
         out.add(r)   # global / builtin
         continue
+      if keep_locals:
+        out.add(r)
       for d in defs:
         n = self.cfg.nodes[d]
         if n.kind == 'entry':
@@ -57,14 +60,14 @@ class FnCtx(object):
         elif n.kind == 'stmt' and isinstance(st, ast.AugAssign):
           val = st.value
           out |= self.expand_reads(ast.Name(id=r, ctx=ast.Load()), d,
-                                   depth + 1, seen, owners)
+                                   depth + 1, seen, owners, keep_locals)
         elif n.kind == 'iter':
           val = st.iter
         elif n.kind == 'with':
           for item in st.items:
             val = item.context_expr
         if val is not None:
-          out |= self.expand_reads(val, d, depth + 1, seen, owners)
+          out |= self.expand_reads(val, d, depth + 1, seen, owners, keep_locals)
         else:
           out.add(r)
     return out
